@@ -2,7 +2,6 @@
 # SPDX-License-Identifier: BSD-4-Clause
 from __future__ import annotations
 
-from collections.abc import Generator
 from contextlib import contextmanager, suppress
 from typing import Any
 
@@ -29,6 +28,22 @@ from .ctxlib import (
 )
 from .engine import ParserEngine
 from .state import _AT_
+
+
+class _ChoiceScope:
+    def __init__(self, ctx: Any):
+        self.ctx = ctx
+        self.chc = ChoiceContext(ctx)
+
+    def __enter__(self) -> ChoiceContext:
+        return self.chc
+
+    def __exit__(self, exctype: Any, exc: Any, tb: Any) -> bool:
+        if exctype is not None:
+            return issubclass(exctype, OptionSucceeded)
+        with suppress(OptionSucceeded):
+            self.chc.parse(self.ctx)
+        return False
 
 
 class ParseContext(ParserEngine):
@@ -186,12 +201,11 @@ class ParseContext(ParserEngine):
 
     _option = option
 
-    @contextmanager
-    def choice(self) -> Generator[ChoiceContext, Any, Any]:
-        chc = ChoiceContext(self)
-        with suppress(OptionSucceeded):
-            yield chc
-            chc.parse(self)
+    def choice(self) -> _ChoiceScope:
+        # NOTE: not a generator: the options are parsed when the scope ends, and
+        #   a StopIteration raised there by a semantic action would come out of
+        #   a generator-based context manager as a RuntimeError
+        return _ChoiceScope(self)
 
     _choice = choice
 
